@@ -7,6 +7,9 @@ mod c11;
 mod c15;
 mod c19;
 mod dump_grammar;
+mod itext;
+mod loadrun;
+mod pstream;
 mod dump_spirv;
 #[allow(unused_macros, dead_code)]
 mod gen;
@@ -26,6 +29,7 @@ fn main() {
         "dump-spirv" => dump_spirv::dump(&args[2], &args[3]),
         "sweep-spirv" => dump_spirv::sweep(&args[2]),
         "dump-grammar" => dump_grammar::dump(&args[2]),
+        "serve" => pstream::serve(&args[2], &args[3]),
         "c11" => c11::run(&args[2], args[3].parse().unwrap(), &args[4], &args[5]),
         "c15" => c15::run(&args[2], args[3].parse().unwrap(), &args[4], &args[5]),
         "c19" => c19::run(&args[2], args[3].parse().unwrap(), &args[4], &args[5]),
